@@ -146,6 +146,54 @@ Proof.
   intros l H. rewrite unpack2_pack2_crumb, map_map. eapply map_id_on; [|exact H]. intros; apply sext2_crumb; assumption.
 Qed.
 
+(* ---------------------------------------------------------------- 8-bit and 16-bit element types *)
+Theorem dec16_enc16 : forall l, Forall (fun e => 0 <= e < 65536) l -> dec16 (enc16 l) = l.
+Proof.
+  induction l as [|v l IH]; intros H; [reflexivity|]. inversion H; subst. cbn [enc16 dec16]. rewrite IH by assumption.
+  f_equal. lia.
+Qed.
+Theorem enc16_length : forall l, length (enc16 l) = (2 * length l)%nat.
+Proof. induction l as [|v l IH]; [reflexivity|]. cbn [enc16 length]. rewrite IH. lia. Qed.
+Theorem enc16_bytes : forall l, Forall (fun b => 0 <= b < 256) (enc16 l).
+Proof. induction l as [|v l IH]; cbn [enc16]; [constructor|]. constructor; [lia|]. constructor; [lia|assumption]. Qed.
+(* and the other way round: every even-length byte string is the payload of exactly the elements it decodes to *)
+Theorem enc16_dec16 : forall n bs, length bs = (2 * n)%nat -> Forall (fun b => 0 <= b < 256) bs -> enc16 (dec16 bs) = bs.
+Proof.
+  induction n as [|n IH]; intros bs L H.
+  - destruct bs; [reflexivity | discriminate].
+  - destruct bs as [|lo [|hi r]]; try (cbn in L; lia). cbn [dec16 enc16].
+    inversion H as [|? ? Hlo H']; subst. inversion H' as [|? ? Hhi Hr]; subst.
+    rewrite (IH r); [|cbn in L; lia|assumption]. f_equal; [lia|]. f_equal. lia.
+Qed.
+Theorem dec8_enc8 : forall l, Forall (fun e => 0 <= e < 256) l -> dec8 (enc8 l) = l.
+Proof. intros l H. unfold dec8, enc8. eapply map_id_on; [|exact H]. intros e He. cbn in He. lia. Qed.
+
+(* the int32_data carrier: bit patterns stored as non-negative int32 come back unchanged; sign-extended negative values
+   (INT16 / INT8) come back as their two's-complement pattern *)
+Theorem int32_carrier16 : forall l, Forall (fun e => 0 <= e < 65536) l ->
+  int32_to_bytes16 l = enc16 l /\ int32_to_elems16 l = l /\ dec16 (int32_to_bytes16 l) = l.
+Proof.
+  intros l H. assert (E : map (fun v => v mod 65536) l = l).
+  { eapply map_id_on; [|exact H]. intros e He. cbn in He. lia. }
+  unfold int32_to_bytes16, int32_to_elems16. rewrite E. repeat split. apply dec16_enc16; assumption.
+Qed.
+Theorem int32_carrier16_signed : forall l, dec16 (int32_to_bytes16 l) = map (fun v => v mod 65536) l.
+Proof.
+  intro l. unfold int32_to_bytes16. apply dec16_enc16. apply Forall_forall. intros x I. apply in_map_iff in I.
+  destruct I as (v & <- & _). lia.
+Qed.
+Theorem int32_carrier8 : forall l, Forall (fun e => 0 <= e < 256) l -> int32_to_bytes8 l = l /\ int32_to_elems8 l = l.
+Proof.
+  intros l H. unfold int32_to_bytes8, int32_to_elems8. split; (eapply map_id_on; [|exact H]); intros e He; cbn in He; lia.
+Qed.
+(* 4-bit tensors (INT4, UINT4, FLOAT4E2M1) and 2-bit tensors carried in int32_data are already packed: one byte per int32 *)
+Theorem int32_carrier_packed4 : forall l, Forall (fun e => 0 <= e < 16) l ->
+  unpack4 (length l) (int32_to_bytes8 (pack4 l)) = l.
+Proof. intros l H. destruct (int32_carrier8 (pack4 l) (pack4_bytes l)) as [E _]. rewrite E. apply unpack4_pack4; assumption. Qed.
+
+Example enc16_example : enc16 [32705; 1] = [193; 127; 1; 0] /\ dec16 [193; 127; 1; 0] = [32705; 1] /\ int32_to_bytes16 [-1] = [255; 255].
+Proof. repeat split; reflexivity. Qed.
+
 Example pack4_odd_example : pack4 [1; 15; 7] = [241; 7] /\ unpack4 3 [241; 7] = [1; 15; 7]
   /\ map sext4 (unpack4 3 (pack4 [-8; -1; 7])) = [-8; -1; 7].
 Proof. repeat split; reflexivity. Qed.
